@@ -108,7 +108,7 @@ const (
 var SessionKeys = []string{
 	"uid", "halfauth", "last_action", "twofactor", "twofactor_auth_token", "twofactor_authed", "twofactor_authed_pid",
 	"oauth2_state", "oauth2_params", "totp_secret", "totp_pending", "sms_number", "sms_secret",
-	"sms_last", "sms_pending", "sms_secret_number", "flash_success", "flash_error", "app_theme", "app_lang", "app_cart",
+	"sms_last", "sms_pending", "sms_secret_number", "flash_success", "flash_error", "app_theme", "app_lang", "app_cart", "app_uid", "app_twofactor_hint", "xhalfauthx",
 }
 
 // Call is one traced backend call of a request.
@@ -400,7 +400,7 @@ func (w *World) buildStack() http.Handler {
 		"/protected/bare":        authboss.Middleware2(ab, authboss.RequireNone, fail)(probe("bare")),
 		"/app/set": http.HandlerFunc(func(rw http.ResponseWriter, r *http.Request) {
 			k, v := r.URL.Query().Get("k"), r.URL.Query().Get("v")
-			if strings.HasPrefix(k, "app_") {
+			if strings.HasPrefix(k, "app_") || k == "xhalfauthx" {
 				authboss.PutSession(rw, k, v)
 			}
 			rw.WriteHeader(200)
